@@ -47,15 +47,18 @@ int main(int argc,char **argv){ vf::init(argc,argv,"C07","model_checking"); bool
 	std::vector<cb::Config> cfgs; const char *be[]={"thread_shared","process_shared"}; for(int b=0;b<2;b++) for(unsigned l=0;l<4;l++){ if(!th&&!(l==0||l==2)) continue; cfgs.push_back(config(be[b],l)); } for(int b=0;b<2;b++) cfgs.push_back(config(be[b],b?2:0,true)); /* keys with an embedded NUL and equal hash values */
 	if(!vf::C().replay_file.empty()){ std::ifstream f(vf::C().replay_file); std::stringstream ss; ss<<f.rdbuf(); std::string l=ss.str(); std::string label=vf::jfield(l,"config"); size_t p=l.find("\"history\":["); std::vector<int> h; if(p!=std::string::npos){ size_t e=l.find(']',p); h=vf::parse_choices(l.substr(p+11,e-p-11)); }
 		for(int bin=0;bin<2;bin++) for(unsigned lim=0;lim<4;lim++) for(int b=0;b<2;b++){ cb::Config c=config(be[b],lim,bin!=0); if(c.label!=label) continue; cb::RunResult r=cb::run_history(c,h,true); for(size_t i=0;i<r.trace.size();i++) printf("  %s\n",r.trace[i].c_str()); printf("replay: %s\n",r.ok?"history conforms":r.what.c_str()); if(!r.ok) vf::violation(c.label+":"+r.sig,r.what,"\"config\":"+vf::jstr(label)); } return vf::finish(); }
+	if(vf::C().pass=="epoch2039"){ // the same exploration with the clock beyond 2^31 seconds (year 2039), two configurations, shallower
+		g_T0=(time_t)2200000000LL; std::vector<cb::Config> ec; ec.push_back(config("thread_shared",2)); ec.push_back(config("process_shared",0)); vf::parallel(ec.size(),2,[&](int i){ cb::Stats st; cb::bfs(ec[i],th?8:6,st,[&](){ return vf::deadline_reached(); }); vf::C().states+=st.states; vf::C().transitions+=st.transitions; vf::C().traces+=st.traces; vf::guard("epoch2039_states",st.states); },th?600:100); return vf::finish(); }
 	int depth=th?12:8, nd=th?5:4; double t_budget=vf::C().budget_s*0.6;
 	vf::C().rule="states = canonical forms of the reference model reached by replaying operation histories on the real cache; alphabet: 20 stores (2 keys x trigger sets {none,{t},{t,u},{other key}} x deadline {now+2, none}; 2 keys x deadline {now-1 with {u}, now}), fetch a/b, rise a/b/t/u, remove a/b, clear, tick 1/2, stats (32 operations); two more configurations use binary keys k\\0a\\x10 / k\\0b\\0 (embedded NUL, equal hash values: same bucket at every table size); every operation result (value, trigger set, deadline, generation relation, counts) and a destructive audit after every history are compared with a set-valued std::map model; distinct = distinct (configuration, canonical model state)";
-	vf::assume("virtual clock: time() is interposed; a hit exactly at now==deadline may go either way (set-valued model)"); vf::assume("process_shared objects are long-lived and reset by clear(), whose post-condition is checked on every use");
+	vf::assume("a sub-pass repeats the search for two configurations with the clock in 2039 (time_t beyond 2^31)"); vf::assume("virtual clock: time() is interposed; a hit exactly at now==deadline may go either way (set-valued model)"); vf::assume("process_shared objects are long-lived and reset by clear(), whose post-condition is checked on every use");
 	std::vector<cb::Stats> stats(cfgs.size());
 	vf::parallel(cfgs.size(),16,[&](int i){ cb::Stats st; cb::bfs(cfgs[i],depth,st,[&](){ return vf::elapsed()>t_budget; }); vf::C().states+=st.states; vf::C().transitions+=st.transitions; vf::C().traces+=st.traces; vf::guard(("bfs_depth_completed:"+cfgs[i].label).c_str(),st.depth_done); if(st.fixpoint) vf::guard(("bfs_fixpoint:"+cfgs[i].label).c_str()); },th?1400:110);
+	vf::run_sub("asan","epoch2039");
 	// no-dedup pass
 	{ std::vector<cb::Config> nc; nc.push_back(config("thread_shared",0)); nc.push_back(config("thread_shared",2)); if(th){ nc.push_back(config("process_shared",0)); nc.push_back(config("thread_shared",1)); }
 	  for(size_t k=0;k<nc.size();k++) vf::parallel(16,16,[&](int sh){ cb::Stats st; for(int d=1;d<=nd;d++){ if(d<nd&&sh!=0&&false) continue; cb::nodedup(nc[k],d,sh,16,st); } vf::C().traces+=st.traces; },th?1400:110); }
 	vf::parallel(1,1,[&](int){ interface_pass(th?5:4); },600);
 	vf::C().extra["bound"]="{\"bfs_max_depth\":"+std::to_string(depth)+",\"nodedup_depth\":"+std::to_string(nd)+",\"configs\":"+std::to_string(cfgs.size())+"}";
-	vf::require_guard("nodedup_sequences"); vf::require_guard("interface_hits"); vf::require_guard("recorder_closed"); vf::require_guard("page_with_inherited_triggers_alive");
+	vf::require_guard("nodedup_sequences"); vf::require_guard("epoch2039_states"); vf::require_guard("interface_hits"); vf::require_guard("recorder_closed"); vf::require_guard("page_with_inherited_triggers_alive");
 	return vf::finish(); }
